@@ -38,8 +38,8 @@ MUTANTS = [
     # ---- C01
     ("c01-swap-escape-a-b", ["C01"], PT, "        Alert => b\"\\\\a\",\n        Backspace => b\"\\\\b\",\n        LineFeed => b\"\\\\n\",\n        CarriageReturn => b\"\\\\r\",\n        Tab => b\"\\\\t\",\n        AsciiControl(byte) => {\n            static HEX_DIGITS: [u8; 16] = *b\"0123456789ABCDEF\";\n            let bytes = &[\n                b'\\\\',\n                b'x',",
      "        Alert => b\"\\\\b\",\n        Backspace => b\"\\\\a\",\n        LineFeed => b\"\\\\n\",\n        CarriageReturn => b\"\\\\r\",\n        Tab => b\"\\\\t\",\n        AsciiControl(byte) => {\n            static HEX_DIGITS: [u8; 16] = *b\"0123456789ABCDEF\";\n            let bytes = &[\n                b'\\\\',\n                b'x',", "kill"),
-    ("c01-del-printed-as-space-in-char", ["C01"], PT, "    if (32..127).contains(&n) {\n        // ASCII, excluding non-printable characters\n        let buf = [b'#', b'\\\\', n as u8];",
-     "    if (32..=127).contains(&n) {\n        // ASCII, excluding non-printable characters\n        let buf = [b'#', b'\\\\', n as u8];", "kill"),
+    ("c01-del-printed-raw-in-char-equivalent-control", ["C01"], PT, "    if (32..127).contains(&n) {\n        // ASCII, excluding non-printable characters\n        let buf = [b'#', b'\\\\', n as u8];",
+     "    if (32..=127).contains(&n) {\n        // ASCII, excluding non-printable characters\n        let buf = [b'#', b'\\\\', n as u8];", "survive"),
     ("c01-drop-semicolon-of-hex-escape", ["C01"], PT, "                HEX_DIGITS[(byte & 0xF) as usize],\n                b';',\n            ];", "                HEX_DIGITS[(byte & 0xF) as usize],\n                b' ',\n            ];", "kill"),
     ("c01-i64-min-negation", ["C01", "C05"], PM, "                    if neg > 0 {", "                    if neg >= 0 && significand != 0 {", "survive"),
     ("c01-neg-boundary", ["C01", "C05"], PM, "                    if neg > 0 {\n                        Number::from(-(significand as f64))", "                    if neg > 0 || significand == 1 << 63 {\n                        Number::from(-(significand as f64))", "kill"),
@@ -88,8 +88,8 @@ MUTANTS = [
     # ---- C03
     ("c03-vector-depth-not-restored", ["C03"], PM, "                let ret = self.parse_vector(close);\n\n                self.remaining_depth += 1;", "                let ret = self.parse_vector(close);\n", "kill"),
     ("c03-quote-uncharged-again", ["C03"], PM, "                self.enter_nested()?;\n                let datum = self.next_value();\n                self.remaining_depth += 1;", "                let datum = self.next_value();", "kill"),
-    ("c03-utf8-length-shift", ["C03", "C17"], PR, "        0b1110_0000..=0b1111_0111 => (initial - 0b1100_0000) >> 4,", "        0b1110_0000..=0b1111_0111 => (initial - 0b1100_0000) >> 3,", "kill"),
-    ("c03-hex-escape-guard-removed", ["C03"], PR, "fn decode_r6rs_hex_escape<'de, R: Read<'de>>(read: &mut R) -> Result<u32> {\n    let mut n = 0;\n    loop {\n        let next = next_or_eof(read)?;\n        if next == b';' {\n            return Ok(n);\n        }\n        match decode_hex_val(next) {\n            None => return error(read, ErrorCode::EofWhileParsingString),\n            Some(val) => {\n                if n >= (1 << 24) {", "fn decode_r6rs_hex_escape<'de, R: Read<'de>>(read: &mut R) -> Result<u32> {\n    let mut n = 0;\n    loop {\n        let next = next_or_eof(read)?;\n        if next == b';' {\n            return Ok(n);\n        }\n        match decode_hex_val(next) {\n            None => return error(read, ErrorCode::EofWhileParsingString),\n            Some(val) => {\n                if n >= (1 << 30) {", "kill"),
+    ("c03-utf8-length-shift", ["C12"], PR, "        0b1110_0000..=0b1111_0111 => (initial - 0b1100_0000) >> 4,", "        0b1110_0000..=0b1111_0111 => (initial - 0b1100_0000) >> 3,", "kill"),
+    ("c03-hex-escape-guard-removed-no-panic-control", ["C03"], PR, "fn decode_r6rs_hex_escape<'de, R: Read<'de>>(read: &mut R) -> Result<u32> {\n    let mut n = 0;\n    loop {\n        let next = next_or_eof(read)?;\n        if next == b';' {\n            return Ok(n);\n        }\n        match decode_hex_val(next) {\n            None => return error(read, ErrorCode::EofWhileParsingString),\n            Some(val) => {\n                if n >= (1 << 24) {", "fn decode_r6rs_hex_escape<'de, R: Read<'de>>(read: &mut R) -> Result<u32> {\n    let mut n = 0;\n    loop {\n        let next = next_or_eof(read)?;\n        if next == b';' {\n            return Ok(n);\n        }\n        match decode_hex_val(next) {\n            None => return error(read, ErrorCode::EofWhileParsingString),\n            Some(val) => {\n                if n >= (1 << 30) {", "survive"),
     ("c03-needs-escape-unreachable", ["C03"], PR, "fn needs_escape(c: u8) -> bool {\n    c == b'\\\\' || c == b'\"'", "fn needs_escape(c: u8) -> bool {\n    c == b'\\\\' || c == b'\"' || c == 0", "kill"),
     # ---- C11
     ("c11-start-before-whitespace", ["C11"], DA, "        let (quoted_value, quoted_info) = quoted.into_inner();\n        let quoted_end = quoted_info.span().end();", "        let (quoted_value, quoted_info) = quoted.into_inner();\n        let quoted_end = quoted_info.span().start();", "kill"),
@@ -108,7 +108,7 @@ MUTANTS = [
     ("c17-slice-as-str-unchecked", ["C17"], PR, "    str::from_utf8(slice).or_else(|_| error(read, ErrorCode::InvalidUnicodeCodePoint))", "    let _ = read;\n    Ok(unsafe { str::from_utf8_unchecked(slice) })", "kill"),
     ("c17-r6rs-escape-pushes-raw-byte", ["C17"], PR, "            scratch.extend_from_slice(c.encode_utf8(&mut [0_u8; 4]).as_bytes());\n        }\n        _ => {\n            return error(read, ErrorCode::InvalidEscape);", "            if (c as u32) < 256 {\n                scratch.push(c as u32 as u8);\n            } else {\n                scratch.extend_from_slice(c.encode_utf8(&mut [0_u8; 4]).as_bytes());\n            }\n        }\n        _ => {\n            return error(read, ErrorCode::InvalidEscape);", "kill"),
     # ---- C19
-    ("c19-eof-string-as-syntax", ["C19"], PE, "            | ErrorCode::EofWhileParsingString\n", "", "kill"),
+    ("c19-eof-string-as-syntax", ["C19"], PE, ["            | ErrorCode::EofWhileParsingString\n", "            | ErrorCode::RecursionLimitExceeded => Category::Syntax,"], ["", "            | ErrorCode::RecursionLimitExceeded\n            | ErrorCode::EofWhileParsingString => Category::Syntax,"], "kill"),
     ("c19-peek-error-index-plus-two", ["C19"], PR, "        self.position_of_index(cmp::min(self.slice.len(), self.index + 1))", "        self.position_of_index(cmp::min(self.slice.len(), self.index + 2))", "survive"),
     ("c19-location-swapped", ["C19"], PE, "                location: Some(Location { line, column }),", "                location: Some(Location { line: column, column: line }),", "kill"),
     ("c19-expect-ident-eof-as-syntax-again", ["C19"], PM, "                None => return Err(self.error(ErrorCode::EofWhileParsingValue)),\n            }\n        }\n\n        Ok(())", "                None => return Err(self.error(ErrorCode::ExpectedSomeIdent)),\n            }\n        }\n\n        Ok(())", "kill"),
@@ -119,11 +119,11 @@ MUTANTS = [
     ("c14-unit-variant-as-string", ["C14", "C04"], SS, "        Ok(Value::symbol(variant))\n    }\n\n    fn serialize_newtype_struct", "        Ok(Value::string(variant))\n    }\n\n    fn serialize_newtype_struct", "kill"),
     ("c14-struct-fields-as-strings", ["C14"], SS, "impl ser::SerializeStruct for SerializeStruct {\n    type Ok = Value;\n    type Error = Error;\n\n    fn serialize_field<V>(&mut self, field: &'static str, value: &V) -> Result<()>\n    where\n        V: ser::Serialize + ?Sized,\n    {\n        self.fields\n            .push(Value::cons(Value::symbol(field), to_value(value)?));", "impl ser::SerializeStruct for SerializeStruct {\n    type Ok = Value;\n    type Error = Error;\n\n    fn serialize_field<V>(&mut self, field: &'static str, value: &V) -> Result<()>\n    where\n        V: ser::Serialize + ?Sized,\n    {\n        self.fields\n            .push(Value::cons(Value::string(field), to_value(value)?));", "kill"),
     ("c14-tuple-as-list", ["C14"], SS, "    fn end(self) -> Result<Value> {\n        Ok(Value::Vector(self.items.into()))", "    fn end(self) -> Result<Value> {\n        Ok(Value::list(self.items))", "kill"),
-    ("c14-list-access-accepts-improper", ["C14", "C18"], SD, "                    Value::Null => self.cursor = None,\n                    _ => return Err(invalid_value(cell.cdr(), \"cons cell or end of list\")),", "                    _ => self.cursor = None,", "kill"),
+    ("c14-list-access-accepts-improper", ["C14"], SD, "                    Value::Null => self.cursor = None,\n                    _ => return Err(invalid_value(cell.cdr(), \"cons cell or end of list\")),", "                    _ => self.cursor = None,", "kill"),
     ("c14-seq-rejects-vector", ["C14"], SD, "            Value::Null => visitor.visit_seq(ListAccess::empty()),\n            Value::Vector(elements) => visitor.visit_seq(VecAccess::new(elements)),\n            Value::Cons(cell) => visitor.visit_seq(ListAccess::new(cell)),\n            _ => Err(invalid_value(self.input, \"list\")),\n        }\n    }\n\n    fn deserialize_tuple<V>", "            Value::Null => visitor.visit_seq(ListAccess::empty()),\n            Value::Cons(cell) => visitor.visit_seq(ListAccess::new(cell)),\n            _ => Err(invalid_value(self.input, \"list\")),\n        }\n    }\n\n    fn deserialize_tuple<V>", "kill"),
     ("c18-expect-reachable-in-map-access", ["C18"], SD, "            None => Ok(None),\n            Some(cell) => cell\n                .car()\n                .as_cons()\n                .ok_or_else(|| invalid_value(cell.car(), \"cons cell\"))", "            None => Ok(None),\n            Some(cell) => Ok(cell\n                .car()\n                .as_cons()\n                .expect(\"alist entry\"))", "kill"),
     ("c18-io-category-for-data-error", ["C18", "C14"], SD, "fn invalid_value(value: &Value, expected: &'static str) -> Error {", "fn invalid_value(value: &Value, expected: &'static str) -> Error {\n    if let Value::Keyword(_) = value {\n        return Error::from(std::io::Error::new(std::io::ErrorKind::Other, expected));\n    }", "kill"),
-    ("c18-number-negint-as-u64", ["C18", "C04"], SD, "        fn visit_i64(self, n: i64) -> Result<V::Value> {\n            self.visitor.visit_i64(n)", "        fn visit_i64(self, n: i64) -> Result<V::Value> {\n            self.visitor.visit_u64(n as u64)", "kill"),
+    ("c18-number-negint-as-u64", ["C04"], SD, "        fn visit_i64(self, n: i64) -> Result<V::Value> {\n            self.visitor.visit_i64(n)", "        fn visit_i64(self, n: i64) -> Result<V::Value> {\n            self.visitor.visit_u64(n as u64)", "kill"),
 ]
 
 
@@ -157,11 +157,16 @@ def main():
                 continue
             full = os.path.join(REPO, path)
             src = open(full).read()
-            if src.count(old) != 1:
-                results.append((name, "PATCH-DOES-NOT-APPLY (%d matches)" % src.count(old)))
+            olds = old if isinstance(old, (list, tuple)) else [old]
+            news = new if isinstance(new, (list, tuple)) else [new]
+            bad = [o for o in olds if src.count(o) != 1]
+            if bad:
+                results.append((name, "PATCH-DOES-NOT-APPLY (%d matches)" % src.count(bad[0])))
                 print(results[-1])
                 continue
-            open(full, "w").write(src.replace(old, new))
+            for o, n in zip(olds, news):
+                src = src.replace(o, n)
+            open(full, "w").write(src)
             try:
                 status = []
                 if with_tests:
